@@ -158,13 +158,13 @@ ExpList(E, pol, mask, ch, cur, acc, mode) ==
              IN ExpList(E, pol, mask, rest, nxt, r.acc, mode)
         [] OTHER -> ExpList(E, pol, mask, rest, cur, acc1, mode)
 
-\* every branch receives what the Split received (after a branch with an unresolved key
-\* nothing is fixed any more); outs = exported contexts that count
+\* every branch receives what the Split received - also the branches after one with an
+\* unresolved key: that key is not among the updates of the sequences that enclose them;
+\* outs = exported contexts that count
 ExpBranches(E, pol, mask, bs, cur, acc, outs, mode) ==
   IF bs = <<>> THEN [outs |-> outs, acc |-> acc]
   ELSE LET b == Head(bs)
-           bad == {j \in 1..Len(outs) : outs[j].err}
-           bin == IF bad = {} THEN cur ELSE outs[CHOOSE j \in bad : \A j2 \in bad : j <= j2]
+           bin == cur
        IN
     IF b \in mask THEN ExpBranches(E, pol, mask, Tail(bs), cur, acc, outs, mode)
     ELSE IF E[b].k = "acc"
